@@ -114,10 +114,16 @@ def kc_kwargs(k, cutoff, spelling=0):
 
 
 def make_world(ctx, n, poison_mode=0, suffix='', eager=True):
+    """A world of n ranks.  The association order of reductions is a property of the (simulated) MPI
+    implementation: it is drawn once per scenario and world size, so that two executions of one scenario
+    differ in timing (arrival order, eager roots) but not in how the library sums - as on a real machine."""
     def tinit(r):
         if poison_mode:
             native.install_allocator()
-    return simmpi.World(n, ctx.tape, digest=ctx.log, eager=eager, thread_init=tinit, suffix=suffix)
+    cache = ctx.__dict__.setdefault('_assoc', {})
+    if n not in cache:
+        cache[n] = ctx.tape.perm(n, 'assoc') if n > 2 else list(range(n))
+    return simmpi.World(n, ctx.tape, digest=ctx.log, eager=eager, thread_init=tinit, suffix=suffix, assoc=cache[n])
 
 
 class Poison:
